@@ -75,3 +75,17 @@ package unexports2
 //@   props C10
 //@   assigns everything
 //@   ensures func_slide: true
+
+// CreateFuncForCodePtr re-points the func variable *outFuncPtr at codePtr by fabricating a func value
+// through reflect internals (MakeFunc + the unexported ptr field): outside what the reflect model covers.
+// placeholder_target[p]: ghost, the code address the func variable behind pointer p was last pointed at.
+//@ ghost var placeholder_target map[interface{}]uintptr
+//@ trusted func CreateFuncForCodePtr
+//@   props C03
+//@   assigns placeholder_target[outFuncPtr], varval
+//@   ensures only_pointers: rv_kind(value_of(outFuncPtr)) != reflect.Ptr ==> result1 != nil
+//@   ensures only_non_pointers_rejected: result1 != nil ==> outFuncPtr == nil || rt_kind(rt_of(typeof(outFuncPtr))) != reflect.Ptr
+//@   ensures repointed: result1 == nil ==> placeholder_target[outFuncPtr] == codePtr
+//@   ensures error_changes_nothing: result1 != nil ==> placeholder_target[outFuncPtr] == old(placeholder_target[outFuncPtr])
+//@   ensures pointers_to_funcs_accepted: rv_kind(value_of(outFuncPtr)) == reflect.Ptr && rv_kind(rv_elem(value_of(outFuncPtr))) == reflect.Func ==> result1 == nil
+//@   panics_only_if not_a_pointer_to_a_func_variable: outFuncPtr == nil || (rv_kind(value_of(outFuncPtr)) == reflect.Ptr && rv_kind(rv_elem(value_of(outFuncPtr))) != reflect.Func)
